@@ -16,6 +16,7 @@ KW_POOL = ['if', 'then', 'end', 'while', 'x1', 'IF', 'End']
 WORDS = ['if', 'IF', 'If', 'iff', 'i', 'then', 'the', 'THEN', 'end', 'End', 'ends', 'while', 'x', 'foo', 'x1', 'X1', 'ab', 'a']
 
 
+PHRASE_WORDS = ['iff', 'the', 'ends', 'x', 'foo', 'ab', 'a', 'i']      # words that are not keywords of KW_POOL
 BIG_POOL = ['abort', 'abs', 'accept', 'access', 'all', 'and', 'array', 'at', 'begin', 'body', 'case', 'constant', 'declare', 'delay',
             'delta', 'digits', 'do', 'else', 'elsif', 'end', 'entry', 'exception', 'exit', 'for', 'function', 'generic', 'goto', 'if',
             'in', 'is', 'limited', 'loop', 'mod', 'new', 'not', 'null', 'of', 'or', 'others', 'out', 'package', 'pragma', 'private',
@@ -34,6 +35,10 @@ def gen_kw_grammar(rng):
         kws = kws + [v for v in {k.upper(), k.capitalize(), k.lower()} if v not in kws][:rng.randint(1, 2)]
     quoted = rng.random() < 0.3
     name_pat = rng.choice([r'[a-z]+', r'\w+', r'[A-Za-z]+', r'[a-zA-Z][a-zA-Z0-9]*'])
+    if quoted and rng.random() < 0.6:      # a quoted keyword may be a phrase: it is reserved as declared, its words are not
+        kws = kws + [' '.join(rng.sample(PHRASE_WORDS, 2))]
+        if rng.random() < 0.5:
+            name_pat = r'[a-z]+( [a-z]+)?'
     ident_body = ('pat', name_pat) if rng.random() < 0.8 else ('choice', [('tok', 'if'), ('tok', 'foo'), ('pat', name_pat)])
     shape = rng.choice(['choice', 'closure', 'lookahead', 'seq', 'stmt'])
     if shape == 'choice':
@@ -53,6 +58,10 @@ def gen_kw_grammar(rng):
     deco = [rng.choice(['name', 'name', 'isname'])] + (['nomemo'] if rng.random() < 0.3 else [])       # @isname: the legacy spelling       # a @name rule may also be @nomemo (another decorator path in generated code)
     g = {'rules': [('start', [], start), ('ident', deco, ident_body)],
          'directives': {}, 'keywords': [("'" + k + "'") if quoted else k for k in kws]}
+    if rng.random() < 0.3:      # rules spelled like the words they match (end = 'end' ;): the word stays reserved
+        for k in kws:
+            if k.isalpha() and k.islower() and k not in ('start', 'ident'):
+                g['rules'].append((k, [], ('tok', k)))
     if rng.random() < 0.35:
         g['directives']['ignorecase'] = rng.choice(['True', 'False'])
     return g, kws, shape
@@ -86,6 +95,22 @@ def find_named_values(canon, keys=('name', 'names', 'a', 'b', 'c', 's')):
         for x in canon:
             out += find_named_values(x, keys)
     return out
+
+
+_reloaded: dict = {}
+
+
+def reloaded_model(g):
+    import json
+    from tatsu.peg.base import Grammar
+    txt = E.grammar_text(g)
+    if txt not in _reloaded:
+        m = R.compile_grammar(g)
+        try:
+            _reloaded[txt] = None if isinstance(m, tuple) else Grammar.loads(json.dumps(m.asjson()))
+        except Exception:  # noqa  (the export itself is C14's subject)
+            _reloaded[txt] = None
+    return _reloaded[txt]
 
 
 def shard(col, shard_i, ngrammars, ninputs):
@@ -139,6 +164,16 @@ def shard(col, shard_i, ngrammars, ninputs):
                 col.violation(f'oracle:genparser-keywords:{io[0]}-vs-{go[0]}:{"dir" if "ignorecase" in c.g["directives"] else "nodir"}:{sorted(c.settings.kwargs().items())}',
                               'the generated parser and the model disagree on a grammar with keywords',
                               {'oracle': 'generated parser', 'case': c.describe(), 'model.parse': io, 'generated': go})
+        # the model re-loaded from its JSON export reserves the same words
+        if col.rng.random() < 0.25:
+            rm = reloaded_model(c.g)
+            if rm is not None:
+                ro, _ = R.impl_outcome(c, rm)
+                col.count('reloaded.compared')
+                if ro != io:
+                    col.violation(f'oracle:reloaded-model-keywords:{io[0]}-vs-{ro[0]}',
+                                  'the model re-loaded from its own JSON export and the compiled model disagree on a grammar with keywords',
+                                  {'oracle': 'JSON round trip of the model', 'case': c.describe(), 'model.parse': io, 'reloaded': ro})
         # non-keywords unaffected: the same grammar with the decorator removed
         g2 = dict(c.g)
         g2['rules'] = [(n, [x for x in dd if x not in ('name', 'isname')], e) for n, dd, e in c.g['rules']]
